@@ -19,6 +19,8 @@ func init() {
 			"Holds for every loss point and loss kind because call sites, not executions, are enumerated. NOT decided: promptness in wall-clock terms; nil-pointer panics inside a transport implementation after loss.",
 		Assumptions: []string{"a failing transport reports through its error result", "user callbacks/OnOpen functions are outside the library"},
 		Mutants: []Mutant{
+			{ID: "C06-operation-closes-channel", Desc: "generic sendCommand closes the channel itself when it sees a connection error", Rule: "C06/close-callers",
+				Edits: []Edit{{File: "driver/generic/sendcommand.go", Old: "\tb, err := d.Channel.SendInput(command, opts...)\n\tif err != nil {\n", New: "\tb, err := d.Channel.SendInput(command, opts...)\n\tif err != nil {\n\t\t_ = d.Channel.Close()\n\n"}}},
 			{ID: "C06-standard-reads-own-pipe", Desc: "the standard transport reads the session's output through an io.Pipe of its own, which nobody closes", Rule: "C06/pipe-writer-closed",
 				Edits: []Edit{{File: "transport/standard.go", Old: "\tt.reader, err = t.session.StdoutPipe()\n\tif err != nil {\n\t\ta.l.Criticalf(\"error spawning crypto/ssh session stdout pipe, error: %s\", err)\n\n\t\treturn err\n\t}\n", New: "\tpr, pw := io.Pipe()\n\n\tt.session.Stdout = pw\n\tt.session.Stderr = pw\n\tt.reader = pr\n"}}},
 			{ID: "C06-login-reads-all", Desc: "the ssh login loop drains the queue with ReadAll (which does not see the reader's exit)", Rule: "C06/no-blind-consumer",
@@ -67,6 +69,8 @@ func runC06(c *Ctx, r *Report) {
 	importFoundation(c, r, "C06", "callbacks")
 	importFoundation(c, r, "C06", "read-loop")
 	importFoundation(c, r, "C06", "chunk-decoder")
+	r.Rule("C06/close-callers", "Channel.Close is called by Open (failure path) and Close methods only: no operation closes the channel behind the caller's back", 4)
+	checkCloseCallers(c, r, "C06/close-callers")
 	r.Rule("C06/pipe-writer-closed", "no transport reads device output from an in-process pipe whose write end nobody closes (the end of the stream must reach the reader)", 1)
 	checkPipeWriterClosed(c, r, "C06/pipe-writer-closed")
 	r.Rule("C06/conn-never-nil", "a connection handle of interface type that a transport invokes without a nil test is never reset to nil (a nil store makes the next Close / Write / Read panic instead of failing)", 1)
